@@ -291,6 +291,10 @@ def r3_internal_stays_internal(ctx):
               "HttpErrorResponseBody fields: %s" % ([x["name"] for x in a["variants"][0]["fields"]] if a else None), nontrivial=False)
 
 
+# the same text seen through another type: &String -> &str and back
+STR_VIEWS = [r"string::String::as_str$", r"string::String::as_mut_str$", r"borrow::ToOwned::to_owned$", r"string::ToString::to_string$"]
+
+
 def r4_one_request_id(ctx):
     R = ctx.rule("C13.R4", "generate_request_id() (Uuid::new_v4) is called once per request in http_request_handle_wrap; that one local feeds the logger, http_request_handle (hence RequestContext.request_id "
                  "and the success header) and error.into_response", floor=6)
@@ -317,13 +321,13 @@ def r4_one_request_id(ctx):
     pidx = None
     for i in idx:
         s = w.slice(ht["args"][i], stop_at_calls=r"generate_request_id$")
-        if not callee_allow(s, PLUMBING + [r"generate_request_id$"]) and "String" in top.local_ty(i + 1) or "str" in top.local_ty(i + 1):
+        if not callee_allow(s, PLUMBING + STR_VIEWS + [r"generate_request_id$"]) and "String" in top.local_ty(i + 1) or "str" in top.local_ty(i + 1):
             okarg = True
             pidx = i + 1
     ctx.check(R, "id-passed-to-handler-path", okarg, "http_request_handle receives the generated id unmodified as parameter %s" % pidx, (w, hbb))
     ir = w.live_calls(r"HandlerError::into_response$")
     oki = bool(ir) and all(w.slice(t["args"][1], stop_at_calls=r"generate_request_id$").touches_local(idl) and
-                           not callee_allow(w.slice(t["args"][1], stop_at_calls=r"generate_request_id$"), PLUMBING + [r"generate_request_id$"]) for _, t in ir)
+                           not callee_allow(w.slice(t["args"][1], stop_at_calls=r"generate_request_id$"), PLUMBING + STR_VIEWS + [r"generate_request_id$"]) for _, t in ir)
     ctx.check(R, "error-response-gets-same-id", oki, "error.into_response(&request_id) uses the same local: %s" % oki, w)
     lg = [t for _, t in w.live_calls(r"slog::Logger::<D>::new$")]
     okl = any(w.slice(t["args"][1]).touches_local(idl) for t in lg)
